@@ -502,34 +502,12 @@ def _const_variant(body, defs, borrowed, op, adts, depth=0):
     if rv["k"] == "use":
         return _const_variant(body, defs, borrowed, rv["a"], adts, depth + 1)
     if rv["k"] == "discr":
-        q = rv["p"]
-        if q["p"]:
-            return None
-        ll = q["l"]
-        if ll <= body["arg_count"] or ll in borrowed:
-            return None
-        dd = defs.get(ll, [])
-        if len(dd) != 1 or dd[0] is None:
-            return None
-        r2 = dd[0]
-        # follow plain copies of the enum value
-        hops = 0
-        while r2["k"] == "use" and hops < 8:
-            q2 = r2["a"].get("copy") or r2["a"].get("move")
-            if q2 is None or q2["p"]:
-                return None
-            l3 = q2["l"]
-            if l3 <= body["arg_count"] or l3 in borrowed:
-                return None
-            d3 = defs.get(l3, [])
-            if len(d3) != 1 or d3[0] is None:
-                return None
-            r2 = d3[0]
-            hops += 1
-        if r2["k"] == "agg" and r2.get("agg") == "adt":
+        r2 = _value_rv(body, defs, borrowed, rv["p"])
+        if r2 is not None and r2["k"] == "agg" and r2.get("agg") == "adt":
             adt = adts.get(r2["adt"])
             if adt is None:
-                return None
+                std = {"std::option::Option": {"None": 0, "Some": 1}, "std::result::Result": {"Ok": 0, "Err": 1}}.get(r2["adt"])
+                return std.get(r2.get("variant")) if std else None
             for v in adt.get("variants", []):
                 if v.get("name") == r2.get("variant"):
                     dv = v.get("discr")
@@ -538,6 +516,36 @@ def _const_variant(body, defs, borrowed, op, adts, depth=0):
                     except (TypeError, ValueError):
                         return None
         return None
+    return None
+
+
+def _value_rv(body, defs, borrowed, place, depth=0):
+    """The one rvalue that defines `place` when it is, through single-definition copies and through reading back a
+    field of a freshly built variant (`(Some(x) as Some).0` is `x`), a value built in this body; else None."""
+    if depth > 12:
+        return None
+    l = place["l"]
+    if l <= body["arg_count"] or l in borrowed:
+        return None
+    ds = defs.get(l, [])
+    if len(ds) != 1 or ds[0] is None:
+        return None
+    rv = ds[0]
+    proj = place["p"]
+    if rv["k"] == "use":
+        q = rv["a"].get("copy") or rv["a"].get("move")
+        if q is None:
+            return None
+        return _value_rv(body, defs, borrowed, {"l": q["l"], "p": list(q["p"]) + list(proj)}, depth + 1)
+    if not proj:
+        return rv
+    if rv["k"] == "agg" and rv.get("agg") == "adt" and len(proj) >= 2 and isinstance(proj[0], dict) and proj[0].get("d") == rv.get("variant") \
+            and isinstance(proj[1], dict) and "f" in proj[1] and proj[1]["f"] < len(rv["ops"]):
+        o = rv["ops"][proj[1]["f"]]
+        q = o.get("copy") or o.get("move")
+        if q is None:
+            return None
+        return _value_rv(body, defs, borrowed, {"l": q["l"], "p": list(q["p"]) + list(proj[2:])}, depth + 1)
     return None
 
 
@@ -782,11 +790,22 @@ def apply(facts, known=None):
     """Expand helper calls in place.  Returns the log: list of {helper, into, sites}."""
     if known is None:
         known = known_functions()
-    facts["renamed"] = [{"now": n, "anchor": m} for n, m in rename_anchors(facts, known)]
+    # renames are resolved in rounds: a function told apart from its twin only by what it calls can be recognised once
+    # the renamed functions it calls have their names back
+    facts["renamed"] = []
+    for _round in range(4):
+        pairs = rename_anchors(facts, known)
+        if not pairs:
+            break
+        facts["renamed"] += [{"now": n, "anchor": m} for n, m in pairs]
     facts["renamed_fields"] = [{"adt": a, "variant": v, "now": n, "anchor": o} for a, v, n, o in rename_fields(facts)]
     helpers = helpers_of(facts, known)
     facts["inlined"] = []
     if not helpers:
+        from . import unroll, expand, pipeline
+        pipeline.apply(facts)
+        expand.apply(facts)
+        unroll.apply(facts)
         return facts["inlined"]
     bodies = {j["key"]: j for j in facts["bodies"]}
     adts = {a["path"]: a for a in facts["adts"]}
@@ -847,4 +866,8 @@ def apply(facts, known=None):
     facts["bodies"] = [j for j in facts["bodies"] if j["key"] not in gone]
     facts["inlined"] = [{"helper": h, "into": k, "sites": n} for (h, k), n in sorted(log.items())]
     facts["helpers_dropped"] = sorted(gone)
+    from . import unroll, expand, pipeline
+    pipeline.apply(facts)
+    expand.apply(facts)
+    unroll.apply(facts)
     return facts["inlined"]
